@@ -180,6 +180,12 @@ where
     W: Write + Send,
 {
     fn drop(&mut self) {
+        // a writer that was never written to must still wait for its own turn:
+        // releasing the successor early would let a later response overtake
+        // (or interleave with) an earlier one
+        if let Some(v) = self.trigger.take() {
+            v.recv().ok();
+        }
         self.on_finish.send(()).ok();
     }
 }
